@@ -192,10 +192,17 @@ def _rod_scene(kind, seed):
         rod = Rod(cs, mat, nel, Q=Q.copy(), q0=Q.copy(), cross_section_inertias=CrossSectionInertias(A_rho0=1.3, B_I_rho0=np.diag([0.7, 1.1, 1.9])), name="rod")
         level = {"rod_cl": "centerline + directors", "rod_volume": "volume"}.get(kind, "NodalVolume")
         rod._export_dict["level"] = level
+        # a second rod with ANOTHER discretisation and ANOTHER export level lives in the same system and is exported first with
+        # the same Export object: export settings and the data derived from them belong to each rod
+        Rod2 = make_CosseratRod(interpolation="Quaternion", mixed=False, constraints=None, polynomial_degree=1, reduced_integration=True)
+        nel2 = nel + 2
+        Q2 = np.asarray(Rod2.straight_configuration(nel2, 1.0, r_OP0=np.array([-1.0, 0.4, 0.0])), float)
+        decoy = Rod2(RectangularCrossSection(0.05, 0.08), mat, nel2, Q=Q2.copy(), q0=Q2.copy(), name="decoy")
+        decoy._export_dict["level"] = "volume" if level != "volume" else "centerline + directors"
         system = System(t0=T0)
-        system.add(rod)
+        system.add(rod, decoy)
         system.assemble(options=SolverOptions(compute_consistent_initial_conditions=False))
-    return system, {"rod": rod, "cs": cs, "p": p, "nel": nel}
+    return system, {"rod": rod, "cs": cs, "p": p, "nel": nel, "decoy": decoy}
 
 
 def _hand_solution(system, n, T, seed):
@@ -708,6 +715,8 @@ def check(case):
             with quiet():
                 e = Export(tmp, "out", case["overwrite"], case["fps"], sol, write_ascii=case["ascii"])
                 folder1 = str(e.path)
+                if kind.startswith("rod"):
+                    e.export_contr(o["decoy"], file_name="decoy")
                 nread += _check_export(case, kind, o, sol, {}, folder1, e, contr, dict(kwargs), fails, stats)
                 if part == "frames":
                     # the same contribution again into the same Export: a second collection with its own files
